@@ -52,6 +52,9 @@ func (r *c43Run) lookupAny(name string) (*packages.Package, *types.Func) {
 	if fn := LookupFunc(r.exPk, name); fn != nil {
 		return r.exPk, fn
 	}
+	if fn := LookupFunc(r.sqlPk, name); fn != nil {
+		return r.sqlPk, fn
+	}
 	return nil, nil
 }
 
@@ -511,6 +514,11 @@ func (r *c43Run) ruleEnumeration(readers []*types.Func, execs []c43Exec) {
 			}
 			c.Check(ok, "C43-E1", key, loops[0].Pos(), "", fmt.Sprintf("inside its loop over all databases %s never calls %s: %s are missing from the listing (or taken from somewhere other than the catalog interface that owns them)", name, strings.Join(need.anyOf, " / "), need.what))
 		}
+		for _, need := range cfg.needs[name] {
+			if need.emits {
+				r.needEmits(name, pk, root, fns, edges, need)
+			}
+		}
 	}
 
 	// E2: one visibility argument
@@ -560,6 +568,145 @@ func (r *c43Run) ruleEnumeration(readers []*types.Func, execs []c43Exec) {
 				fmt.Sprintf("%s enumerates databases with %s(…, %s) while %d other readers pass %s: this table unwraps the privilege-checking database and lists objects the sibling tables (and SHOW) hide from the same user", s.root, cfg.dbEnum, s.val, count[major], major))
 		}
 	}
+}
+
+// needEmits: some call of the required source in the closure feeds a loop (or DBTableIter callback) that builds rows.
+func (r *c43Run) needEmits(name string, pk *packages.Package, root *types.Func, fns []*types.Func, edges map[*types.Func][]*types.Func, need c43Need) {
+	c := r.c
+	info := pk.TypesInfo
+	isEmit := func(n ast.Node) bool {
+		switch x := n.(type) {
+		case *ast.CallExpr:
+			if IsBuiltinCall(info, x, "append") && len(x.Args) >= 1 && r.row.isSliceOf(info.TypeOf(x.Args[0])) {
+				return true
+			}
+		case *ast.AssignStmt:
+			for _, lh := range x.Lhs {
+				if ix, ok := ast.Unparen(lh).(*ast.IndexExpr); ok && r.row.isSliceOf(info.TypeOf(ix.X)) {
+					return true
+				}
+			}
+		}
+		return false
+	}
+	// functions of the closure that (transitively) build rows
+	emitsFn := map[*types.Func]bool{}
+	for _, fn := range fns {
+		ast.Inspect(c.P.Decl(fn).Body, func(n ast.Node) bool {
+			if n != nil && isEmit(n) {
+				emitsFn[fn] = true
+			}
+			return !emitsFn[fn]
+		})
+	}
+	for changed := true; changed; {
+		changed = false
+		for _, fn := range fns {
+			if emitsFn[fn] {
+				continue
+			}
+			for _, cal := range edges[fn] {
+				if emitsFn[cal] {
+					emitsFn[fn] = true
+					changed = true
+				}
+			}
+		}
+	}
+	bodyEmits := func(body ast.Node) bool {
+		found := false
+		ast.Inspect(body, func(n ast.Node) bool {
+			if n == nil || found {
+				return false
+			}
+			if isEmit(n) {
+				found = true
+				return false
+			}
+			if call, ok := n.(*ast.CallExpr); ok {
+				cal := Callee(info, call)
+				if cal == nil {
+					cal = c43FuncVarTarget(c.P, info, call.Fun)
+				}
+				if cal != nil && emitsFn[cal.Origin()] {
+					found = true
+				}
+			}
+			return !found
+		})
+		return found
+	}
+	isSource := func(call *ast.CallExpr) bool {
+		k := c43CallKey(info, call)
+		for _, want := range need.anyOf {
+			if k == want {
+				return true
+			}
+		}
+		return false
+	}
+	sites, good := 0, false
+	var first token.Pos
+	for _, fn := range fns {
+		fd := c.P.Decl(fn)
+		// variables bound to a source call, and ranges directly over a source call
+		bound := map[*types.Var]bool{}
+		ast.Inspect(fd.Body, func(n ast.Node) bool {
+			switch x := n.(type) {
+			case *ast.CallExpr:
+				if !isSource(x) {
+					return true
+				}
+				sites++
+				if first == token.NoPos {
+					first = x.Pos()
+				}
+				// a callback-style source: the function literal arguments are the loop body
+				for _, a := range x.Args {
+					if fl, ok := ast.Unparen(a).(*ast.FuncLit); ok && bodyEmits(fl.Body) {
+						good = true
+					}
+				}
+			case *ast.AssignStmt:
+				if len(x.Rhs) == 1 {
+					if call, ok := ast.Unparen(x.Rhs[0]).(*ast.CallExpr); ok && isSource(call) && len(x.Lhs) > 0 {
+						if id, ok := x.Lhs[0].(*ast.Ident); ok {
+							if v, ok := info.Defs[id].(*types.Var); ok {
+								bound[v] = true
+							} else if v, ok := info.Uses[id].(*types.Var); ok {
+								bound[v] = true
+							}
+						}
+					}
+				}
+			}
+			return true
+		})
+		ast.Inspect(fd.Body, func(n ast.Node) bool {
+			rs, ok := n.(*ast.RangeStmt)
+			if !ok {
+				return true
+			}
+			over := false
+			switch x := ast.Unparen(rs.X).(type) {
+			case *ast.Ident:
+				if v, ok := info.Uses[x].(*types.Var); ok && bound[v] {
+					over = true
+				}
+			case *ast.CallExpr:
+				over = isSource(x)
+			}
+			if over && bodyEmits(rs.Body) {
+				good = true
+			}
+			return true
+		})
+	}
+	if sites == 0 {
+		return // reported by the presence clause
+	}
+	c.Check(good, "C43-E1", name+"/"+need.what+": rows", first, "",
+		fmt.Sprintf("%s enumerates %s (%s) but no loop over the result (nor a callback passed to it) builds an output row: the objects are read and not listed", name, need.what, strings.Join(need.anyOf, " / ")))
 }
 
 // ---- X1: error discipline ----------------------------------------------------------------------------------
